@@ -150,7 +150,7 @@ def r2(chk, fx, t, paths):
     # the flag set for <reject/>
     expr_vars = {a[1] for p in paths for a in p.assigns() if "str::parse(" in A.vstr(a[2])}
     name_vars = {a[1] for p in paths for a in p.assigns() if any(x[0] == "adt" and x[1].endswith("policies::Name") for x in A.walk_value(a[2]))}
-    flag_vars = {a[1] for p in paths for a in p.assigns() if a[2] == ("lit", True) and holds_true(p, "'reject'")}
+    flag_vars = reject_flags(paths)
     if not expr_vars or not name_vars or not flag_vars:
         raise F.AnchorLost("Maybe<Candidate>::read_xml: annotation / name / reject-flag variable not found (%s, %s, %s)" % (expr_vars, name_vars, flag_vars))
 
@@ -200,6 +200,18 @@ def r2(chk, fx, t, paths):
                 names.add(k.rsplit(":", 1)[-1].strip('b"'))
     chk.instance("C16/R2", "the statement reader accepts exactly the elements name, then (and reject inside then): %s" % sorted(names), t["def"], loc_of(t.get("sp")),
                  holds=names == {"name", "then", "reject"}, key="C16/R2 %s accepted-elements %s" % (fn, sorted(names)))
+
+
+def reject_flags(paths):
+    """The variables that say "<reject/> was seen": assigned `true` on a path that assumed the element name 'reject' — and, when the
+    <then> scan lives in a helper that returns its own such flag, the variable of the caller that receives the helper's flag."""
+    direct = {a[1] for p in paths for a in p.assigns() if a[2] == ("lit", True) and holds_true(p, "'reject'")}
+    out = set(direct)
+    for p in paths:
+        for a in p.assigns():
+            if a[1] not in out and any(A.mentions(a[2], lambda x, f=f: x == ("sym", "loop:%s" % f)) for f in direct):
+                out.add(a[1])
+    return out
 
 
 def is_iteration_end(p):
